@@ -92,7 +92,7 @@ pub fn gen_case(t: &mut Tape) -> Case {
         null: with_filename && t.chance(1, 4),
         after: t.small(3),
         before: t.small(3),
-        multiline: multiline && mode != Mode::Vimgrep,
+        multiline,
         crlf,
         invert,
         ignore_case: t.chance(1, 6),
@@ -318,6 +318,18 @@ fn line_match_starts(orc: &oracle::LineOracle, content: &[u8]) -> Option<Vec<(us
 }
 
 pub fn check(case: &Case) -> Verdict {
+    let v = check_inner(case);
+    if let Verdict::Fail(_) = &v {
+        // attribute failures on inputs where the regex engine contradicts itself
+        let pc = pat_cfg(case);
+        if let (Ok(m), Ok(o)) = (pc.build(), oracle::build(&pc)) {
+            return crate::mat::attribute_engine(v, &m, Some(&o.re), &case.input.0, b'\n', case.crlf);
+        }
+    }
+    v
+}
+
+fn check_inner(case: &Case) -> Verdict {
     let pc = pat_cfg(case);
     let Ok(matcher) = pc.build() else { return Verdict::Reject("builder rejected the pattern") };
     let orc = match oracle::build(&pc) {
@@ -341,6 +353,14 @@ pub fn check(case: &Case) -> Verdict {
         // here by construction and counted.
         let ls = model::split_lines(input, b'\n');
         if let Some(l) = ls.last() {
+            if !l.terminated && (case.column || case.mode == Mode::Vimgrep) && case.multiline {
+                // the same shape under -U, judged by the real matcher's whole-input matches
+                let ms = super::c13::enumerate_matches(&matcher, input, false);
+                let touching: Vec<_> = ms.iter().filter(|(s, e)| *e > l.start || *s >= l.start).collect();
+                if !touching.is_empty() && touching.iter().all(|(s, e)| s == e && *e == input.len()) {
+                    return Verdict::Reject("known trailing-empty-match shape (see C10) with a column field");
+                }
+            }
             if !l.terminated && (case.column || case.mode == Mode::Vimgrep) && !case.multiline {
                 let content = model::content(input, l, case.crlf);
                 if orc.re.find_iter(content).all(|m| m.start() == m.end() && m.end() == content.len()) && orc.re.is_match(content) {
@@ -475,7 +495,9 @@ pub fn check(case: &Case) -> Verdict {
                             // without -n/-b a record cannot be attributed to
                             // one line when several lines are equal, so the
                             // separator position is only asserted with coordinates
-                            let located = r.lineno.is_some() || (r.off.is_some() && !vim);
+                            // (--vimgrep -U prints only the first line of a multi-line match, so the
+                            // lines in between are absent without a separator)
+                            let located = (r.lineno.is_some() || (r.off.is_some() && !vim)) && !(vim && case.multiline);
                             if case.after + case.before > 0 && !repeated && located {
                                 let gap = idx > l + 1;
                                 if gap != pending_sep {
@@ -501,7 +523,45 @@ pub fn check(case: &Case) -> Verdict {
                         if let Some(col) = r.col {
                             if is_match && !case.invert {
                                 let content = model::content(input, &lines[idx], case.crlf);
-                                if vim {
+                                if vim && case.multiline {
+                                    // --vimgrep -U: one record per match, showing the line the match starts
+                                    // in; the column must lie inside that line and a match must start there
+                                    let l = &lines[idx];
+                                    let rel = (col as usize).wrapping_sub(1);
+                                    let inside = if l.terminated { rel < l.end - l.start } else { rel <= l.end - l.start };
+                                    if !inside {
+                                        return Verdict::Fail(fail(format!(
+                                            "--vimgrep -U: line {} printed with column {col}, which lies outside the line ({} bytes with its terminator)",
+                                            idx + 1,
+                                            l.end - l.start
+                                        )));
+                                    }
+                                    if effective_ml {
+                                        let p = l.start + rel;
+                                        let starts_at = |from: usize| {
+                                            let mut at = from;
+                                            for _ in 0..64 {
+                                                match matcher.find_at(input, at).ok().flatten() {
+                                                    Some(m) if m.start() == p => return true,
+                                                    Some(m) if m.start() < p => at = if m.end() > at { m.end() } else { at + 1 },
+                                                    _ => return false,
+                                                }
+                                                if at > p {
+                                                    return false;
+                                                }
+                                            }
+                                            false
+                                        };
+                                        if !(ml_matches.iter().any(|(s, _)| *s == p) || starts_at(p) || starts_at(l.start) || starts_at(0)) {
+                                            return Verdict::Fail(fail(format!(
+                                                "--vimgrep -U: line {} printed with column {col} (offset {p}), but no match starts there (whole-input matches: {:?})",
+                                                idx + 1,
+                                                &ml_matches[..ml_matches.len().min(20)]
+                                            )));
+                                        }
+                                        info.class("vimgrep_multiline_column_checked");
+                                    }
+                                } else if vim {
                                     vim_group.push((idx, col));
                                 } else if !case.multiline {
                                     if let Some(ms) = line_match_starts(&orc, content) {
